@@ -227,7 +227,10 @@ Lemma resolve_unfold : forall f base root id,
                       | Some cr => if loc_prefix cr ct then Some (join_os base id) else None
                       | None => None
                       end
-         | None => Some (join_os base id)
+         | None => match ensure_real_parent_within_root f root (join_os base id) (join base id) with
+                   | EOk => Some (join_os base id)
+                   | _ => None
+                   end
          end
   end.
 Proof. intros. destruct id; reflexivity. Qed.
@@ -236,7 +239,8 @@ Lemma resolve_some : forall f base root id j,
   resolve_within_root f base root id = Some j ->
   j = join_os base id /\ has_byte BACKSLASH id = false /\ rooted id = false /\
   (exists x, normalize_lexically (join base id) = abs (root ++ x)) /\
-  (forall ct, canon f j = Some ct -> exists cr, canon f (abs root) = Some cr /\ loc_prefix cr ct = true).
+  (forall ct, canon f j = Some ct -> exists cr, canon f (abs root) = Some cr /\ loc_prefix cr ct = true) /\
+  (canon f j = None -> ensure_real_parent_within_root f root (join_os base id) (join base id) = EOk).
 Proof.
   intros f base root id j H. rewrite resolve_unfold in H.
   destruct id as [|c t]; [discriminate|].
@@ -251,11 +255,14 @@ Proof.
   - destruct (canon f (abs root)) as [cr|] eqn:CR; [|discriminate].
     destruct (loc_prefix cr ct) eqn:P; [|discriminate].
     injection H as <-.
-    split; [reflexivity|]. split; [reflexivity|]. split; [reflexivity|]. split; [exact LEX|].
-    intros ct' E. rewrite C in E. injection E as <-. exists cr. split; [reflexivity|exact P].
-  - injection H as <-.
-    split; [reflexivity|]. split; [reflexivity|]. split; [reflexivity|]. split; [exact LEX|].
-    intros ct' E. rewrite C in E. discriminate E.
+    split; [reflexivity|]. split; [reflexivity|]. split; [reflexivity|]. split; [exact LEX|]. split.
+    + intros ct' E. rewrite C in E. injection E as <-. exists cr. split; [reflexivity|exact P].
+    + intros E. rewrite C in E. discriminate E.
+  - destruct (ensure_real_parent_within_root f root (join_os base id) (join base id)) eqn:EN; try discriminate H.
+    injection H as <-.
+    split; [reflexivity|]. split; [reflexivity|]. split; [reflexivity|]. split; [exact LEX|]. split.
+    + intros ct' E. rewrite C in E. discriminate E.
+    + intros _. reflexivity.
 Qed.
 
 Definition read_inside (f : fs) (root : loc) (t : touch) : Prop :=
@@ -275,7 +282,7 @@ Proof.
   intros. unfold get. destruct (resolve_within_root f base root id) as [j|] eqn:R; [|constructor].
   destruct (read_file f j) as [[q c]|] eqn:RF; [|constructor]. simpl.
   constructor; [|constructor]. simpl.
-  destruct (resolve_some _ _ _ _ _ R) as (_ & _ & _ & _ & H). apply H. eapply read_file_canon; eauto.
+  destruct (resolve_some _ _ _ _ _ R) as (_ & _ & _ & _ & H & _). apply H. eapply read_file_canon; eauto.
 Qed.
 
 Lemma write_stream_confined : forall f base root id, Forall (read_inside f root) (snd (write_stream f base root id)).
@@ -283,7 +290,7 @@ Proof.
   intros. unfold write_stream. destruct (resolve_within_root f base root id) as [j|] eqn:R; [|constructor].
   destruct (read_file f j) as [[q c]|] eqn:RF; [|constructor]. simpl.
   constructor; [|constructor]. simpl.
-  destruct (resolve_some _ _ _ _ _ R) as (_ & _ & _ & _ & H). apply H. eapply read_file_canon; eauto.
+  destruct (resolve_some _ _ _ _ _ R) as (_ & _ & _ & _ & H & _). apply H. eapply read_file_canon; eauto.
 Qed.
 
 Lemma exists_confined : forall f base root id,
@@ -292,7 +299,7 @@ Lemma exists_confined : forall f base root id,
    exists q cr, canon f (join_os base id) = Some q /\ canon f (abs root) = Some cr /\ loc_prefix cr q = true).
 Proof.
   intros. unfold exists_op. destruct (resolve_within_root f base root id) as [j|] eqn:R.
-  - destruct (resolve_some _ _ _ _ _ R) as (J & _ & _ & _ & H). subst j.
+  - destruct (resolve_some _ _ _ _ _ R) as (J & _ & _ & _ & H & _). subst j.
     destruct (canon f (join_os base id)) as [q|] eqn:C; simpl.
     + destruct (H q eq_refl) as [cr [H1 H2]]. split.
       * constructor; [simpl; eauto|constructor].
@@ -384,37 +391,17 @@ Proof.
 Qed.
 
 (* ResourceStore::add: after the base directory rr has been reached, see write_at_inside *)
-Lemma add_inside : forall f base id data o ts f0 rr ts0,
-  add f base id data = (o, ts) ->
+Lemma add_old_inside : forall f base id data o ts f0 rr ts0,
+  add_old f base id data = (o, ts) ->
   mkdirp FUEL f [] base [] = (Some (f0, rr), ts0) ->
   ts = [] \/ exists ts1, ts = ts0 ++ ts1 /\ (Forall (follows_in rr) ts1 -> Forall (writes_in rr) ts1).
 Proof.
-  intros f base id data o ts f0 rr ts0 H M. unfold add in H.
+  intros f base id data o ts f0 rr ts0 H M. unfold add_old in H.
   destruct (sanitize id) as [ns|]; [|inversion H; left; reflexivity].
   rewrite M in H. right.
   destruct (write_at FUEL f0 rr ns data) as [r ts1] eqn:W. exists ts1.
   split; [destruct r; inversion H; reflexivity|].
   intros Hf. eapply write_at_inside; eauto.
-Qed.
-
-Lemma builder_add_inside : forall f base id data o ts f0 rr ts0,
-  builder_add f base id data = (o, ts) ->
-  mkdirp FUEL f [] base [] = (Some (f0, rr), ts0) ->
-  Forall (fun t => match t with TWrite _ | TMkdir _ => False | _ => True end) ts \/
-  exists ts1, ts = ts0 ++ ts1 /\ (Forall (follows_in rr) ts1 -> Forall (writes_in rr) ts1).
-Proof.
-  intros f base id data o ts f0 rr ts0 H M. unfold builder_add in H.
-  destruct (sanitize id) as [ns|]; [|inversion H; left; constructor].
-  destruct (exists_op f base base (join_slash ns)) as [ob tsb] eqn:E.
-  assert (A : add f base (join_slash ns) data = (o, ts) ->
-              Forall (fun t => match t with TWrite _ | TMkdir _ => False | _ => True end) ts \/
-              exists ts1, ts = ts0 ++ ts1 /\ (Forall (follows_in rr) ts1 -> Forall (writes_in rr) ts1)).
-  { intros A. destruct (add_inside _ _ _ _ _ _ _ _ _ A M) as [->|X]; [left; constructor|right; exact X]. }
-  destruct ob; try (apply A; exact H).
-  destruct b; [|apply A; exact H].
-  inversion H; subst. left.
-  unfold exists_op in E. destruct (resolve_within_root f base base (join_slash ns)); [|inversion E; constructor].
-  destruct (canon f l); inversion E; subst; repeat constructor.
 Qed.
 
 Lemma export_all_inside : forall rr rels f acc o ts,
@@ -454,26 +441,30 @@ Definition id_link_secret : str := n_link ++ [47] ++ n_secret.      (* "link/sec
 Definition w_fs0 : fs := [([n_root], Dir); ([n_root; n_link], Link s_up_outside); ([n_outside], Dir)].
 Definition w_fs : fs := w_fs0 ++ [([n_outside; n_secret], File [83])].
 
-Lemma write_refuted :
+(* before 791680340 (F-SYMLINK-WRITE): the lexically sanitised write followed the link out of the root;
+   after it: the same call is refused, nothing is written *)
+Lemma write_refuted_old :
   canon w_fs (abs [n_root]) = Some [n_root]
-  /\ add w_fs [n_root] id_link_evil [68] = (OkUnit, [TFollow [n_outside]; TWrite [n_outside; n_evil]])
+  /\ add_old w_fs [n_root] id_link_evil [68] = (OkUnit, [TFollow [n_outside]; TWrite [n_outside; n_evil]])
   /\ loc_prefix [n_root] [n_outside; n_evil] = false
-  /\ fst (get w_fs [n_root] [n_root] id_link_secret) = ErrNotFoundId
-  /\ fst (exists_op w_fs [n_root] [n_root] id_link_secret) = OkBool false.
+  /\ add w_fs [n_root] [n_root] id_link_evil [68] = (ErrBadParam, []).
 Proof. vm_compute. repeat split; reflexivity. Qed.
 
 Definition agree_inside (rr : loc) (f1 f2 : fs) : Prop :=
   forall l, loc_prefix rr l = true -> lookup f1 l = lookup f2 l.
 
-Lemma probe_refuted :
+(* before 791680340 (F-SYMLINK-PROBE): two file systems that agree under the root were told apart by the
+   containment check itself; after it they are not, and the three callers answer the same *)
+Lemma probe_witness :
   agree_inside [n_root] w_fs w_fs0
-  /\ fst (path_for_id w_fs [n_root] [n_root] id_link_secret) = OkPath None
-  /\ (exists p, fst (path_for_id w_fs0 [n_root] [n_root] id_link_secret) = OkPath (Some p))
-  /\ fst (get w_fs [n_root] [n_root] id_link_secret) = ErrNotFoundId
-  /\ fst (get w_fs0 [n_root] [n_root] id_link_secret) = ErrNotFoundPath
-  /\ fst (write_stream w_fs [n_root] [n_root] id_link_secret) = ErrNotFoundId
-  /\ fst (write_stream w_fs0 [n_root] [n_root] id_link_secret) = ErrIo
-  /\ fst (exists_op w_fs [n_root] [n_root] id_link_secret) = fst (exists_op w_fs0 [n_root] [n_root] id_link_secret).
+  /\ resolve_within_root_old w_fs [n_root] [n_root] id_link_secret = None
+  /\ (exists p, resolve_within_root_old w_fs0 [n_root] [n_root] id_link_secret = Some p)
+  /\ resolve_within_root w_fs [n_root] [n_root] id_link_secret = None
+  /\ resolve_within_root w_fs0 [n_root] [n_root] id_link_secret = None
+  /\ path_for_id w_fs [n_root] [n_root] id_link_secret = path_for_id w_fs0 [n_root] [n_root] id_link_secret
+  /\ get w_fs [n_root] [n_root] id_link_secret = get w_fs0 [n_root] [n_root] id_link_secret
+  /\ write_stream w_fs [n_root] [n_root] id_link_secret = write_stream w_fs0 [n_root] [n_root] id_link_secret
+  /\ exists_op w_fs [n_root] [n_root] id_link_secret = exists_op w_fs0 [n_root] [n_root] id_link_secret.
 Proof.
   split.
   - intros l H. destruct (loc_prefix_spec _ _ H) as [x ->]. reflexivity.
